@@ -16,5 +16,5 @@ Separate Extraction
   Bind.find_seg Bind.find_heap Bind.cached_spans Bind.seg_slices Bind.tag_safe_b Bind.heap_by_tag Bind.cursor_yields
   Abandon.tid_of Abandon.stepx Abandon.step Abandon.run_schedule Abandon.run_trace Abandon.adoption_trace Abandon.run_solo
   Abandon.mk_state Abandon.inv_b Abandon.finished Abandon.quiescent Abandon.count_ok_b Abandon.no_dead_abandoned_b
-  Abandon.collect_prog Abandon.marked Abandon.holds Abandon.NEVER Abandon.USE.
+  Abandon.collect_prog Abandon.collect_prog_of Abandon.os_count Abandon.marked Abandon.holds Abandon.NEVER Abandon.USE.
 Cd "..".
